@@ -1,409 +1,11 @@
-(* C12 - proofs about the reactor model (Reactor.v). *)
+(* C12 - proofs about the reactor model (Reactor.v): the lemmas behind the property theorems.
+   ReactorBase: list helpers, run, tactics.  ReactorAcc / ReactorLedger / ReactorFifo / ReactorWf /
+   ReactorClosed: one-step invariants (separate files so that they build in parallel). *)
 From Coq Require Import Lia.
-From ZenoV Require Import Reactor.Reactor.
-
-(* ------------------------------------------------------------------ list helpers *)
-
-Lemma res_eqb_eq : forall a b, res_eqb a b = true <-> a = b.
-Proof. destruct a, b; simpl; split; intro H; try discriminate; reflexivity. Qed.
-
-Lemma res_eqb_refl : forall a, res_eqb a a = true.
-Proof. destruct a; reflexivity. Qed.
-
-Lemma pc_eqb_eq : forall a b, pc_eqb a b = true <-> a = b.
-Proof.
-  destruct a, b; simpl; rewrite ?andb_true_iff, ?Nat.eqb_eq, ?Bool.eqb_true_iff; split; intro H;
-    try discriminate; try (inversion H; subst; auto); try (destruct H; subst; reflexivity).
-Qed.
-
-Lemma pc_eqb_refl : forall a, pc_eqb a a = true.
-Proof. intro a. apply pc_eqb_eq. reflexivity. Qed.
-
-Lemma memb_pc_In : forall p l, memb pc_eqb p l = true <-> In p l.
-Proof.
-  induction l as [|q r IH]; simpl.
-  - split; [discriminate | tauto].
-  - rewrite orb_true_iff, IH, pc_eqb_eq. split; intros [H|H]; auto.
-Qed.
-
-Lemma memb_nat_In : forall i l, memb Nat.eqb i l = true <-> In i l.
-Proof.
-  induction l as [|q r IH]; simpl.
-  - split; [discriminate | tauto].
-  - rewrite orb_true_iff, IH, Nat.eqb_eq. split; intros [H|H]; auto.
-Qed.
-
-Lemma memb_nat_notIn : forall i l, memb Nat.eqb i l = false <-> ~ In i l.
-Proof.
-  intros i l. rewrite <- memb_nat_In. destruct (memb Nat.eqb i l); split; intro H; congruence.
-Qed.
-
-Lemma sumw_rem1 : forall w p l, In p l -> sumw w (rem1 pc_eqb p l) + w p = sumw w l.
-Proof.
-  induction l as [|q r IH]; simpl; intros H; [tauto|].
-  destruct (pc_eqb p q) eqn:E.
-  - apply pc_eqb_eq in E. subst. lia.
-  - destruct H as [H|H]; [subst; rewrite pc_eqb_refl in E; discriminate|].
-    simpl. specialize (IH H). lia.
-Qed.
-
-Lemma sumw_pos_In : forall w l, 0 < sumw w l -> exists p, In p l /\ 0 < w p.
-Proof.
-  induction l as [|q r IH]; simpl; intros H; [lia|].
-  destruct (w q) eqn:E.
-  - destruct (IH H) as [p [Hp Hw]]. exists p. auto.
-  - exists q. split; auto. lia.
-Qed.
-
-Lemma sumw_In_le : forall w p l, In p l -> w p <= sumw w l.
-Proof.
-  induction l as [|q r IH]; simpl; intros H; [tauto|].
-  destruct H as [H|H]; [subst; lia|]. specialize (IH H). lia.
-Qed.
-
-Lemma sumw_zero : forall w l, sumw w l = 0 -> forall p, In p l -> w p = 0.
-Proof. intros w l H p Hin. pose proof (sumw_In_le w p l Hin). lia. Qed.
-
-Lemma cnt_app : forall j a b, cnt j (a ++ b) = cnt j a + cnt j b.
-Proof. induction a as [|x r IH]; simpl; intros; [reflexivity|]. rewrite IH. lia. Qed.
-
-Lemma cnt_pos_In : forall j l, 0 < cnt j l <-> In j l.
-Proof.
-  induction l as [|x r IH]; simpl; [split; [lia|tauto]|].
-  destruct (x =? j) eqn:E.
-  - apply Nat.eqb_eq in E. subst. split; [auto|lia].
-  - apply Nat.eqb_neq in E. rewrite <- IH. split; [intro H; right; lia| intros [H|H]; [congruence|lia]].
-Qed.
-
-Lemma cnt_zero_notIn : forall j l, cnt j l = 0 <-> ~ In j l.
-Proof. intros j l. rewrite <- cnt_pos_In. lia. Qed.
-
-Lemma cnt_rem1 : forall j i l, In i l ->
-  cnt j (rem1 Nat.eqb i l) + (if i =? j then 1 else 0) = cnt j l.
-Proof.
-  induction l as [|x r IH]; simpl; intros H; [tauto|].
-  destruct (i =? x) eqn:E.
-  - apply Nat.eqb_eq in E. subst. lia.
-  - destruct H as [H|H]; [subst; rewrite Nat.eqb_refl in E; discriminate|].
-    simpl. specialize (IH H). lia.
-Qed.
-
-Lemma rem1_notIn : forall i l, ~ In i l -> rem1 Nat.eqb i l = l.
-Proof.
-  induction l as [|x r IH]; simpl; intros H; [reflexivity|].
-  destruct (i =? x) eqn:E.
-  - apply Nat.eqb_eq in E. subst. tauto.
-  - f_equal. apply IH. tauto.
-Qed.
-
-Lemma length_rem1 : forall i l, In i l -> S (length (rem1 Nat.eqb i l)) = length l.
-Proof.
-  induction l as [|x r IH]; simpl; intros H; [tauto|].
-  destruct (i =? x) eqn:E; [reflexivity|].
-  destruct H as [H|H]; [subst; rewrite Nat.eqb_refl in E; discriminate|].
-  simpl. rewrite IH; auto.
-Qed.
-
-Lemma In_rem1 : forall j i l, In j (rem1 Nat.eqb i l) -> In j l.
-Proof.
-  induction l as [|x r IH]; simpl; intros H; [tauto|].
-  destruct (i =? x); [right; exact H|]. destruct H as [H|H]; auto.
-Qed.
-
-Lemma cnt_le_length : forall j l, cnt j l <= length l.
-Proof. induction l as [|x r IH]; simpl; [lia|]. destruct (x =? j); lia. Qed.
-
-Lemma NoDup_cnt : forall l, (forall j, cnt j l <= 1) -> NoDup l.
-Proof.
-  induction l as [|x r IH]; intros H; constructor.
-  - intro Hin. apply cnt_pos_In in Hin. specialize (H x). simpl in H. rewrite Nat.eqb_refl in H. lia.
-  - apply IH. intro j. specialize (H j). simpl in H. lia.
-Qed.
-
-(* ------------------------------------------------------------------ run *)
-
-Lemma run_app : forall v ls1 ls2 s,
-  run v s (ls1 ++ ls2) = match run v s ls1 with Some s' => run v s' ls2 | None => None end.
-Proof.
-  induction ls1 as [|l r IH]; simpl; intros; [reflexivity|].
-  destruct (step v s l); [apply IH | reflexivity].
-Qed.
-
-(* an invariant of [step] holds after every label sequence *)
-Lemma run_inv : forall v (P : state -> Prop),
-  (forall s l s', P s -> step v s l = Some s' -> P s') ->
-  forall ls s s', P s -> run v s ls = Some s' -> P s'.
-Proof.
-  intros v P Hstep. induction ls as [|l r IH]; simpl; intros s s' HP H.
-  - inversion H. subst. exact HP.
-  - destruct (step v s l) eqn:E; [|discriminate]. eapply IH; [|exact H]. eapply Hstep; eauto.
-Qed.
-
-Lemma runw_run : forall v ls s s', runw v s ls = Some s' -> run v s ls = Some s'.
-Proof.
-  induction ls as [|l r IH]; simpl; intros s s' H; [exact H|].
-  destruct (wf_label s l); [|discriminate].
-  destruct (step v s l); [apply IH; exact H | discriminate].
-Qed.
-
-Lemma runw_inv : forall v (P : state -> Prop),
-  (forall s l s', P s -> wf_label s l = true -> step v s l = Some s' -> P s') ->
-  forall ls s s', P s -> runw v s ls = Some s' -> P s'.
-Proof.
-  intros v P Hstep. induction ls as [|l r IH]; simpl; intros s s' HP H.
-  - inversion H. subst. exact HP.
-  - destruct (wf_label s l) eqn:W; [|discriminate].
-    destruct (step v s l) eqn:E; [|discriminate]. eapply IH; [|exact H]. eapply Hstep; eauto.
-Qed.
-
-(* ------------------------------------------------------------------ tactics *)
-
-Ltac brk H :=
-  repeat match type of H with
-  | context [match ?x with _ => _ end] => let E := fresh "E" in destruct x eqn:E; try discriminate H
-  end.
-
-Ltac unf := unfold crash, ret, push_input, call_add, call_del, call_mov, give_back, take_from_client,
-  with_tokens, with_table, with_input, with_hand, with_outq, with_running, with_frozen, with_cancelled,
-  with_nilled, with_crashed, with_calls, with_rets, with_sent, with_consumed, with_held in *.
-
-(* turn boolean facts produced by [brk] into propositions *)
-Ltac facts :=
-  repeat match goal with
-  | H : at_pc _ _ = true |- _ => unfold at_pc in H; apply memb_pc_In in H
-  | H : tracked _ _ = true |- _ => unfold tracked in H; apply memb_nat_In in H
-  | H : tracked _ _ = false |- _ => unfold tracked in H; apply memb_nat_notIn in H
-  | H : (_ <? _) = true |- _ => apply Nat.ltb_lt in H
-  | H : (_ <? _) = false |- _ => apply Nat.ltb_ge in H
-  | H : (_ && _) = true |- _ => apply andb_true_iff in H; destruct H
-  | H : (_ || _) = false |- _ => apply orb_false_iff in H; destruct H
-  | H : negb _ = true |- _ => apply negb_true_iff in H
-  end.
-
-(* one step, all cases: H : step v s l = Some s' *)
-Ltac step_cases H :=
-  unfold step, closed_test in H;
-  match type of H with (if crashed ?s then _ else _) = _ =>
-    let C := fresh "Hnc" in destruct (crashed s) eqn:C; [discriminate H|] end;
-  match type of H with match ?l with _ => _ end = _ => destruct l end;
-  brk H; inversion H; subst; clear H; facts.
-
-(* ------------------------------------------------------------------ accounting *)
-
-(* tokens in use = tracked seeds + calls that hold a token for a seed that is not in the table
-   (inserts between token and store, finishes between delete and release); never more than cap *)
-Definition Acc (s : state) : Prop :=
-  crashed s = false ->
-  tokens s = length (table s) + sumw w_trans (calls s) /\ tokens s <= cap s.
-
-Ltac pose_sums w :=
-  repeat match goal with
-  | Hin : In ?p (calls ?s) |- _ =>
-      lazymatch goal with
-      | _ : sumw w (rem1 pc_eqb p (calls s)) + _ = _ |- _ => fail
-      | _ => pose proof (sumw_rem1 w p (calls s) Hin)
-      end
-  end.
-
-Lemma acc_step : forall v s l s', v_fb_fix v = true ->
-  Acc s -> step v s l = Some s' -> Acc s'.
-Proof.
-  intros v s l s' Hv A H. step_cases H; specialize (A Hnc); destruct A as [A1 A2];
-    unf; unfold Acc; simpl; intro Hc; try discriminate Hc;
-    try (rewrite Hv in *; try discriminate);
-    pose_sums w_trans;
-    try match goal with
-    | Hin : In ?i (table s) |- context [rem1 Nat.eqb ?i (table s)] =>
-        pose proof (length_rem1 i (table s) Hin)
-    end;
-    simpl in *; unfold id in *; try lia.
-Qed.
-
-(* ------------------------------------------------------------------ the token ledger *)
-
-Ltac eqbs :=
-  repeat match goal with
-  | H : (?a =? ?b) = true |- _ => apply Nat.eqb_eq in H; try subst
-  | H : (?a =? ?b) = false |- _ => apply Nat.eqb_neq in H
-  | |- context [?a =? ?b] => let E := fresh "Eq" in destruct (a =? b) eqn:E
-  | H : context [?a =? ?b] |- _ => let E := fresh "Eq" in destruct (a =? b) eqn:E
-  end.
-
-(* per seed: entries in the table + finishes that returned nil or are about to = inserts that
-   returned nil or are about to *)
-Definition Ledger (s : state) : Prop :=
-  crashed s = false ->
-  forall j, cnt j (table s) + cntret (OFin j) ROk (rets s) + sumw (w_rel_id j) (calls s)
-            = cntret (OIns j) ROk (rets s) + sumw (w_send_id j) (calls s).
-
-Lemma ledger_step : forall v s l s', v_fb_fix v = true ->
-  Ledger s -> step v s l = Some s' -> Ledger s'.
-Proof.
-  intros v s l s' Hv A H. step_cases H; specialize (A Hnc);
-    unf; unfold Ledger; simpl; intros Hc j; try discriminate Hc; specialize (A j);
-    try (rewrite Hv in *; try discriminate);
-    pose_sums (w_rel_id j); pose_sums (w_send_id j);
-    try match goal with
-    | Hin : In ?i (table s) |- context [rem1 Nat.eqb ?i (table s)] =>
-        pose proof (cnt_rem1 j i (table s) Hin)
-    end;
-    try match goal with b : bool |- _ => destruct b end;
-    simpl in *; unfold id in *; eqbs; try lia.
-Qed.
-
-(* ------------------------------------------------------------------ no seed tracked twice; FIFO *)
-
-Lemma NoDup_rem1 : forall i l, NoDup l -> NoDup (rem1 Nat.eqb i l).
-Proof.
-  induction l as [|x r IH]; simpl; intros H; [constructor|].
-  inversion H; subst. destruct (i =? x); [assumption|].
-  constructor; [|apply IH; assumption]. intro Hin. apply In_rem1 in Hin. contradiction.
-Qed.
-
-Lemma nodup_step : forall v s l s', v_fb_fix v = true ->
-  NoDup (table s) -> step v s l = Some s' -> NoDup (table s').
-Proof.
-  intros v s l s' Hv A H. step_cases H; unf; simpl; try assumption;
-    try (rewrite Hv in *; discriminate).
-  - constructor; assumption.
-  - apply NoDup_rem1; assumption.
-Qed.
-
-(* everything that was sent on the input channel is, in that order: received by the consumers,
-   or in the output buffer, or in run()'s hand, or still in the input channel *)
-Lemma fifo_step : forall v s l s',
-  sent s = flow s -> step v s l = Some s' -> sent s' = flow s'.
-Proof.
-  intros v s l s' A H. unfold flow, hand_list in *.
-  step_cases H; unf; simpl in *; try assumption;
-    repeat match goal with E : hand s = _ |- _ => rewrite E in *; clear E
-                         | E : input s = _ |- _ => rewrite E in *; clear E
-                         | E : outq s = _ |- _ => rewrite E in *; clear E end;
-    simpl in *; rewrite ?A; repeat rewrite <- app_assoc; simpl; try reflexivity; try assumption.
-Qed.
-
-(* the sends are exactly the inserts and feedbacks that returned nil, in the order of their returns *)
-Lemma sent_rets_step : forall v s l s',
-  sent s = rev (omap send_ok (rets s)) -> step v s l = Some s' -> sent s' = rev (omap send_ok (rets s')).
-Proof.
-  intros v s l s' A H.
-  step_cases H; unf; simpl in *; try assumption;
-    try match goal with b : bool |- _ => destruct b end; simpl; rewrite ?A; try reflexivity; try assumption.
-Qed.
-
-(* ------------------------------------------------------------------ well-formed clients *)
-
-(* The invariant of reactor + well-formed client.  Every tracked seed is in exactly one place
-   (w_loc1): carried by an insert that has stored it, in the input channel, in run()'s hand, in
-   the output buffer, held by the client, or carried by a feedback / an unfinished finish call. *)
-Record WInv (s : state) : Prop := {
-  w_crash : crashed s = false;
-  w_loc1 : forall j, sumw (w_loc_id j) (calls s) + cnt j (input s) + cnt j (hand_list s)
-                     + cnt j (outq s) + cnt j (held s) = cnt j (table s);
-  w_pre : forall j, sumw (w_pre_id j) (calls s) + cnt j (table s) <= 1;
-  w_len : sumw w_loc (calls s) + length (input s) + length (hand_list s)
-          + length (outq s) + length (held s) = length (table s);
-  w_acc1 : tokens s = length (table s) + sumw w_trans (calls s);
-  w_acc2 : tokens s <= cap s;
-  w_nil : nilled s = true -> calls s = [];
-  w_run : running s = false -> cancelled s = true;
-  w_can : cancelled s = true -> frozen s = true;
-  w_noorig : sumw w_orig (calls s) = 0 }.
-
-Lemma winv_init : forall n m, WInv (init n m).
-Proof. intros n m. constructor; simpl; auto; try discriminate; intros; lia. Qed.
-
-Lemma pre_zero : forall i l, ~ In i (omap ins_pre_id l) -> sumw (w_pre_id i) l = 0.
-Proof.
-  induction l as [|p r IH]; simpl; intros H; [auto|].
-  destruct p; simpl in *; try (apply IH; exact H);
-    try (destruct (i0 =? i) eqn:E;
-         [apply Nat.eqb_eq in E; subst; exfalso; apply H; left; reflexivity
-         | apply IH; intro; apply H; right; assumption]).
-Qed.
-
-Ltac facts2 :=
-  repeat match goal with
-  | H : memb Nat.eqb _ _ = true |- _ => apply memb_nat_In in H
-  | H : memb Nat.eqb _ _ = false |- _ => apply memb_nat_notIn in H
-  | H : (_ && _) = true |- _ => apply andb_true_iff in H; destruct H
-  | H : negb _ = true |- _ => apply negb_true_iff in H
-  | H : tracked _ _ = true |- _ => unfold tracked in H; apply memb_nat_In in H
-  | H : tracked _ _ = false |- _ => unfold tracked in H; apply memb_nat_notIn in H
-  end.
-
-(* branches that a well-formed client never reaches *)
-Ltac absurd_branch W :=
-  match goal with
-  | Hn : nilled ?s = true, Hin : In _ (calls ?s) |- _ =>
-      exfalso; rewrite (w_nil _ W Hn) in Hin; exact Hin
-  | Hin : In (PInsStore ?i) (calls ?s), Ht : In ?i (table ?s) |- _ =>
-      exfalso; apply cnt_pos_In in Ht;
-      pose proof (sumw_In_le (w_pre_id i) _ _ Hin) as Hle; simpl in Hle; rewrite Nat.eqb_refl in Hle;
-      pose proof (w_pre _ W i); lia
-  | Hin : In ?p (calls ?s), Hn : ~ In ?i (table ?s) |- _ =>
-      exfalso; apply Hn; apply cnt_pos_In;
-      pose proof (sumw_In_le (w_loc_id i) p (calls s) Hin) as Hle; simpl in Hle; rewrite Nat.eqb_refl in Hle;
-      pose proof (w_loc1 _ W i); lia
-  | Hin : In (PFbSwap ?i) (calls ?s) |- _ =>
-      exfalso; pose proof (sumw_In_le w_orig _ _ Hin) as Hle; simpl in Hle; pose proof (w_noorig _ W); lia
-  end.
-
-Ltac pose_all j :=
-  pose_sums w_loc; pose_sums (w_loc_id j); pose_sums (w_pre_id j); pose_sums w_trans; pose_sums w_orig.
-
-Ltac rem_facts j :=
-  repeat match goal with
-  | Hin : In ?i (held ?s) |- _ =>
-      lazymatch goal with
-      | _ : S (length (rem1 Nat.eqb i (held s))) = _ |- _ => fail
-      | _ => pose proof (length_rem1 i (held s) Hin); pose proof (cnt_rem1 j i (held s) Hin)
-      end
-  | Hin : In ?i (table ?s) |- _ =>
-      lazymatch goal with
-      | _ : S (length (rem1 Nat.eqb i (table s))) = _ |- _ => fail
-      | _ => pose proof (length_rem1 i (table s) Hin); pose proof (cnt_rem1 j i (table s) Hin)
-      end
-  end.
-
-Ltac chan_eqs :=
-  unfold hand_list in *;
-  repeat match goal with
-  | E : hand ?s = _ |- _ => rewrite E in *; clear E
-  | E : input ?s = _ |- _ => rewrite E in *; clear E
-  | E : outq ?s = _ |- _ => rewrite E in *; clear E
-  end.
-
-Lemma winv_step : forall s l s',
-  WInv s -> wf_label s l = true -> step fixed s l = Some s' -> WInv s'.
-Proof.
-  intros s l s' W Hwf H.
-  pose proof (w_crash s W) as Wc; pose proof (w_loc1 s W) as W1; pose proof (w_pre s W) as Wp;
-    pose proof (w_len s W) as Wl; pose proof (w_acc1 s W) as Wa1; pose proof (w_acc2 s W) as Wa2;
-    pose proof (w_nil s W) as Wn; pose proof (w_run s W) as Wr; pose proof (w_can s W) as Wcn;
-    pose proof (w_noorig s W) as Wo.
-  step_cases H; simpl in Hwf; facts2; try (absurd_branch W).
-  all: constructor; unf; simpl; try assumption; try reflexivity.
-  all: try match goal with
-           | Hp : ~ In ?i (omap ins_pre_id (calls ?s)), Ht : ~ In ?i (table ?s) |- _ =>
-               pose proof (pre_zero i _ Hp); apply cnt_zero_notIn in Ht
-           end.
-  all: try (intro j; specialize (W1 j); specialize (Wp j); pose_all j; rem_facts j; chan_eqs;
-            rewrite ?cnt_app, ?app_length in *; simpl in *; unfold id in *; eqbs; lia).
-  all: try (pose_all 0; rem_facts 0; chan_eqs; rewrite ?app_length in *; simpl in *; unfold id in *; lia).
-  all: try (intros; simpl in *; congruence).
-  all: try (intros; simpl in *; auto; fail).
-  all: try (intro Hx; exfalso; match goal with Hin : In _ (calls ?s) |- _ => rewrite (Wn Hx) in Hin; exact Hin end).
-  all: try (intros _; match goal with Hw : match calls ?s with _ => _ end = true |- _ => destruct (calls s); [reflexivity | discriminate Hw] end).
-Qed.
+From ZenoV Require Export Reactor.ReactorBase Reactor.ReactorAcc Reactor.ReactorLedger Reactor.ReactorFifo
+  Reactor.ReactorWf Reactor.ReactorClosed.
 
 (* ------------------------------------------------------------------ theorems over all label sequences *)
-
-Lemma cap_step : forall v s l s', step v s l = Some s' -> cap s' = cap s /\ ocap s' = ocap s.
-Proof. intros v s l s' H. step_cases H; unf; simpl; auto. Qed.
-
-Lemma acc_init : forall n m, Acc (init n m).
-Proof. intros n m _. simpl. lia. Qed.
 
 Lemma accounting_lemma : forall v n m ls s, v_fb_fix v = true ->
   run v (init n m) ls = Some s -> crashed s = false ->
@@ -424,9 +26,6 @@ Proof.
   destruct (A Hc) as [A1 A2]. split; [exact A1|]. split; [lia|]. split; [exact D|].
   intro E. rewrite E in A1. simpl in A1. lia.
 Qed.
-
-Lemma ledger_init : forall n m, Ledger (init n m).
-Proof. intros n m _ j. reflexivity. Qed.
 
 Lemma ledger_lemma : forall v n m ls s, v_fb_fix v = true ->
   run v (init n m) ls = Some s -> crashed s = false ->
@@ -501,9 +100,6 @@ Proof. intros. eapply w_crash, winv_runw; eauto. Qed.
 
 (* ------------------------------------------------------------------ rejected calls change nothing *)
 
-Lemma cons_neq : forall {A} (x : A) l, x :: l <> l.
-Proof. intros A x l H. apply (f_equal (@length A)) in H. simpl in H. lia. Qed.
-
 Lemma reject_pure_lemma : forall v s l s' o r, v_fb_fix v = true -> step v s l = Some s' ->
   rets s' = (o, r) :: rets s -> r = RNotPresent \/ r = RNotFound \/ r = RNotInit ->
   observe s' = observe s.
@@ -556,222 +152,6 @@ Proof.
   split; [reflexivity|]. split; [apply Nat.ltb_lt in T; lia|]. split; [exact N|].
   rewrite Hc, Hn. simpl. rewrite Hc, Nat.eqb_refl, Hn. simpl. rewrite N'.
   split; [reflexivity|]. simpl. rewrite Nat.eqb_refl. unfold observe. simpl. auto.
-Qed.
-
-(* ------------------------------------------------------------------ frozen / stopped: nothing is accepted *)
-
-(* the reactor is frozen (or stopping) and no call in progress has passed its test of ctx/freezeCtx *)
-Definition Closed (s : state) : Prop := frozen s = true /\ sumw w_past (calls s) = 0.
-
-Ltac step_cases2 H :=
-  step_cases H;
-  repeat match goal with
-  | E : match ?x with _ => _ end = _ |- _ => destruct x eqn:?; try discriminate E
-  end;
-  repeat match goal with
-  | E : Some _ = Some _ |- _ => inversion E; subst; clear E
-  end; facts.
-
-Lemma closed_step : forall s l s', Closed s -> step fixed s l = Some s' ->
-  Closed s'
-  /\ (forall j, In j (table s') -> In j (table s))
-  /\ sent s' = sent s
-  /\ (rets s' = rets s \/ exists x, rets s' = x :: rets s /\ accepting x = false).
-Proof.
-  intros s l s' [F P] H. step_cases2 H; unf; unfold Closed; simpl in *;
-    pose_sums w_past; simpl in *;
-    try match goal with Hf : frozen _ = false |- _ => congruence end;
-    try match goal with b : bool |- _ => destruct b end; simpl in *;
-    try (exfalso; lia);
-    (split; [split; [assumption || reflexivity | lia] |]);
-    (split; [intros j Hj; try assumption; try (eapply In_rem1; eassumption); fail |]);
-    (split; [reflexivity |]); auto; right; eexists; split; reflexivity.
-Qed.
-
-Lemma closed_lemma : forall ls s s', Closed s -> run fixed s ls = Some s' ->
-  Closed s'
-  /\ (forall j, In j (table s') -> In j (table s))
-  /\ sent s' = sent s
-  /\ exists new, rets s' = new ++ rets s /\ Forall (fun x => accepting x = false) new.
-Proof.
-  induction ls as [|l r IH]; simpl; intros s s' C H.
-  - inversion H; subst. split; [exact C|]. split; [auto|]. split; [reflexivity|].
-    exists []. split; [reflexivity | constructor].
-  - destruct (step fixed s l) as [s1|] eqn:E; [|discriminate].
-    destruct (closed_step _ _ _ C E) as [C1 [T1 [S1 R1]]].
-    destruct (IH _ _ C1 H) as [C2 [T2 [S2 [new [R2 F2]]]]].
-    split; [exact C2|]. split; [auto|]. split; [congruence|].
-    destruct R1 as [R1|[x [R1 A1]]].
-    + exists new. split; [congruence | exact F2].
-    + exists (new ++ [x]). split.
-      * rewrite R2, R1, <- app_assoc. reflexivity.
-      * apply Forall_app. split; [exact F2 | constructor; [exact A1 | constructor]].
-Qed.
-
-(* Once Freeze() (or the cancel() of Stop()) has happened with no call past its test, whatever
-   follows: no seed is added to the state table, nothing is sent to the input channel, and no
-   insert and no feedback returns nil. *)
-Lemma closed_accepts_nothing_lemma : forall s0 l ls s1 s2,
-  l = Freeze \/ l = StopCancel ->
-  nilled s0 = false -> sumw w_past (calls s0) = 0 ->
-  step fixed s0 l = Some s1 -> run fixed s1 ls = Some s2 ->
-  (forall j, In j (table s2) -> In j (table s0))
-  /\ sent s2 = sent s0
-  /\ exists new, rets s2 = new ++ rets s0 /\ Forall (fun x => accepting x = false) new.
-Proof.
-  intros s0 l ls s1 s2 L N P H R.
-  assert (C : Closed s1 /\ table s1 = table s0 /\ sent s1 = sent s0 /\ rets s1 = rets s0).
-  { destruct L; subst l; unfold step in H; destruct (crashed s0); try discriminate;
-      rewrite N in H; inversion H; subst; unfold Closed; unf; simpl; auto. }
-  destruct C as [C [T [S X]]].
-  destruct (closed_lemma _ _ _ C R) as [_ [T2 [S2 [new [R2 F2]]]]].
-  split; [intros j Hj; rewrite <- T; auto|]. split; [congruence|].
-  exists new. split; [congruence | exact F2].
-Qed.
-
-(* after Stop() has completed every call reports "not initialized" and changes nothing *)
-Lemma stopped_lemma : forall v s o, crashed s = false -> nilled s = true ->
-  step v s (match o with OIns i => InsCall i | OFb i => FbCall i | OFin i => FinCall i end)
-  = Some (ret o RNotInit s).
-Proof. intros v s o Hc Hn. destruct o; unfold step; rewrite Hc, Hn; reflexivity. Qed.
-
-(* ------------------------------------------------------------------ the original code *)
-
-(* ReceiveFeedback before the fix: feedback for a seed the reactor does not track is "rejected"
-   and yet leaves the seed in the state table with no token; a finish of that seed then waits
-   for a token that nobody holds. *)
-Lemma unknown_feedback_orig_refuted :
-  exists ls s s2,
-    run original (init 1 1) ls = Some s
-    /\ crashed s = false /\ calls s = [] /\ rets s = [(OFb 7, RNotPresent)]
-    /\ table s = [7] /\ tokens s = 0
-    /\ run original s [FinCall 7; FinDelete 7] = Some s2
-    /\ calls s2 = [PFinRel 7] /\ step original s2 (FinRelease 7) = None.
-Proof.
-  exists [FbCall 7; FbSwap 7]. eexists. eexists. vm_compute. repeat split; reflexivity.
-Qed.
-
-(* ReceiveInsert / ReceiveFeedback before the fix: with the reactor frozen and no call in
-   progress, an insert (and a feedback) issued afterwards is accepted *)
-Lemma frozen_accepts_orig_refuted :
-  exists s0 ls s2,
-    run original (init 2 1) [InsCall 1; InsSelect 1 ArmChan; InsStore 1; InsSend 1; RunRecv; RunHand] = Some s0
-    /\ calls s0 = [] /\ nilled s0 = false
-    /\ run original s0 (Freeze :: ls) = Some s2
-    /\ frozen s2 = true
-    /\ rets s2 = [(OFb 1, ROk); (OIns 2, ROk)] ++ rets s0
-    /\ table s2 = [2; 1] /\ sent s2 = sent s0 ++ [2; 1].
-Proof.
-  eexists. exists [InsCall 2; InsSelect 2 ArmChan; InsStore 2; InsSend 2; FbCall 1; FbSwap 1; FbSelect 1 ArmChan].
-  eexists. vm_compute. repeat split; reflexivity.
-Qed.
-
-(* ------------------------------------------------------------------ delivery *)
-
-(* steps of run() and of the consumers keep everything in transit in order and use up the measure *)
-Lemma sys_step_lemma : forall v s l s', sys_step l = true -> step v s l = Some s' ->
-  flow s' = flow s /\ sys_measure s' < sys_measure s
-  /\ tokens s' = tokens s /\ table s' = table s /\ calls s' = calls s /\ rets s' = rets s.
-Proof.
-  intros v s l s' L H. unfold flow, sys_measure, hand_list.
-  step_cases H; try discriminate L; unf; simpl;
-    repeat match goal with E : hand s = _ |- _ => rewrite E in *; clear E
-                         | E : input s = _ |- _ => rewrite E in *; clear E
-                         | E : outq s = _ |- _ => rewrite E in *; clear E end;
-    simpl; rewrite ?app_length; simpl; repeat rewrite <- app_assoc; simpl;
-    (split; [reflexivity|]); (split; [lia|]); auto.
-Qed.
-
-Lemma sys_enabled_lemma : forall v s, crashed s = false -> running s = true -> 0 < sys_measure s ->
-  exists l s', sys_step l = true /\ step v s l = Some s'.
-Proof.
-  intros v s Hc Hr M. unfold sys_measure, hand_list in M.
-  destruct (outq s) as [|o q] eqn:Eo.
-  - destruct (hand s) as [h|] eqn:Eh.
-    + exists RunHand. unfold step. rewrite Hc, Hr, Eh, Eo. eauto.
-    + destruct (input s) as [|x r] eqn:Ei; [simpl in M; lia|].
-      exists RunRecv. unfold step. rewrite Hc, Hr, Eh, Ei. eauto.
-  - exists Consume. unfold step. rewrite Hc, Eo. eauto.
-Qed.
-
-Lemma sys_done_lemma : forall s, sys_measure s = 0 -> consumed s = flow s.
-Proof.
-  intros s M. unfold sys_measure, flow, hand_list in *.
-  destruct (input s); [|simpl in M; lia]. destruct (hand s); [simpl in M; lia|].
-  destruct (outq s); [|simpl in M; lia]. simpl. rewrite app_nil_r. reflexivity.
-Qed.
-
-(* every sequence of run()/consumer steps is shorter than the measure and loses nothing *)
-Lemma sys_run_lemma : forall v ls s s', forallb sys_step ls = true -> run v s ls = Some s' ->
-  flow s' = flow s /\ sys_measure s' + length ls <= sys_measure s
-  /\ tokens s' = tokens s /\ table s' = table s /\ calls s' = calls s.
-Proof.
-  induction ls as [|l r IH]; simpl; intros s s' A H.
-  - inversion H; subst. repeat split; try reflexivity; try lia.
-  - apply andb_true_iff in A. destruct A as [A1 A2].
-    destruct (step v s l) as [s1|] eqn:E; [|discriminate].
-    destruct (sys_step_lemma _ _ _ _ A1 E) as [F1 [M1 [T1 [B1 [C1 _]]]]].
-    destruct (IH _ _ A2 H) as [F2 [M2 [T2 [B2 C2]]]].
-    repeat split; try congruence; lia.
-Qed.
-
-(* the explicit schedule: with run() alive and a consumer reading, everything in transit is
-   delivered, in the order in which it was sent *)
-Lemma consume_all : forall v q s, crashed s = false -> outq s = q ->
-  exists s', run v s (repeat Consume (length q)) = Some s'
-    /\ consumed s' = consumed s ++ q /\ outq s' = [] /\ hand s' = hand s /\ input s' = input s
-    /\ crashed s' = false /\ running s' = running s.
-Proof.
-  induction q as [|x q IH]; intros s Hc Ho; simpl.
-  - exists s. rewrite app_nil_r. repeat split; auto.
-  - unfold step at 1. rewrite Hc, Ho.
-    match goal with |- context [run v ?s1 _] => destruct (IH s1) as [s' [R [C [O [Hh [I [Cr Ru]]]]]]] end;
-      [exact Hc | reflexivity |].
-    exists s'. split; [exact R|]. simpl in *. rewrite C, <- app_assoc. repeat split; auto.
-Qed.
-
-Lemma drain_input_all : forall v q s, crashed s = false -> running s = true ->
-  input s = q -> hand s = None -> outq s = [] ->
-  exists s', run v s (drain_input (length q)) = Some s'
-    /\ consumed s' = consumed s ++ q /\ outq s' = [] /\ hand s' = None /\ input s' = [].
-Proof.
-  induction q as [|x q IH]; intros s Hc Hr Hi Hh Ho; simpl.
-  - exists s. rewrite app_nil_r. repeat split; auto.
-  - unfold step at 1. rewrite Hc, Hr, Hh, Hi.
-    unfold step at 1. simpl. rewrite Hc, Hr, Ho.
-    match goal with |- context [run v ?s1 _] => destruct (IH s1) as [s' [R [C [O [H1 I]]]]] end;
-      try reflexivity; try assumption.
-    exists s'. split; [exact R|]. simpl in *. rewrite C, <- app_assoc. repeat split; auto.
-Qed.
-
-Lemma drain_rest : forall v s, crashed s = false -> running s = true -> outq s = [] ->
-  exists s', run v s ((match hand s with Some _ => [RunHand] | None => [] end)
-                      ++ drain_input (length (input s))) = Some s'
-    /\ consumed s' = consumed s ++ hand_list s ++ input s
-    /\ outq s' = [] /\ hand s' = None /\ input s' = [].
-Proof.
-  intros v s Hc Hr Ho. unfold hand_list. destruct (hand s) as [h|] eqn:Eh.
-  - simpl. unfold step at 1. rewrite Hc, Hr, Eh, Ho.
-    match goal with |- context [run v ?s2 _] =>
-      destruct (drain_input_all v (input s) s2) as [s' [R [C [O [H2 I]]]]] end;
-      try reflexivity; try assumption.
-    simpl in R. exists s'. split; [exact R|]. simpl in C. rewrite C.
-    repeat rewrite <- app_assoc. repeat split; auto.
-  - simpl. destruct (drain_input_all v (input s) s Hc Hr eq_refl Eh Ho) as [s' [R [C [O [H2 I]]]]].
-    exists s'. split; [exact R|]. rewrite C. repeat split; auto.
-Qed.
-
-Lemma drain_lemma : forall v s, crashed s = false -> running s = true ->
-  exists s', run v s (drain_labels s) = Some s'
-    /\ consumed s' = flow s /\ outq s' = [] /\ hand s' = None /\ input s' = [].
-Proof.
-  intros v s Hc Hr. unfold drain_labels, flow.
-  destruct (consume_all v (outq s) s Hc eq_refl) as [s1 [R1 [C1 [O1 [H1 [I1 [Cr1 Ru1]]]]]]].
-  rewrite Hr in Ru1.
-  destruct (drain_rest v s1 Cr1 Ru1 O1) as [s' [R [C [O [H2 I]]]]].
-  unfold hand_list in *. rewrite H1, I1 in *.
-  exists s'. rewrite run_app, R1. split; [exact R|]. rewrite C, C1.
-  repeat rewrite <- app_assoc. repeat split; auto.
 Qed.
 
 (* ------------------------------------------------------------------ progress *)
@@ -993,32 +373,6 @@ Proof. eexists. vm_compute. repeat split; auto. Qed.
 
 (* ------------------------------------------------------------------ every accepted seed reaches the output *)
 
-Lemma sys_step_flags : forall v s l s', sys_step l = true -> step v s l = Some s' ->
-  crashed s' = crashed s /\ running s' = running s.
-Proof. intros v s l s' L H. step_cases H; try discriminate L; unf; simpl; auto. Qed.
-
-Lemma sys_run_flags : forall v ls s s', forallb sys_step ls = true -> run v s ls = Some s' ->
-  crashed s' = crashed s /\ running s' = running s /\ rets s' = rets s.
-Proof.
-  induction ls as [|l r IH]; simpl; intros s s' A H.
-  - inversion H; subst. auto.
-  - apply andb_true_iff in A. destruct A as [A1 A2].
-    destruct (step v s l) as [s1|] eqn:E; [|discriminate].
-    destruct (sys_step_flags _ _ _ _ A1 E) as [F1 F2].
-    destruct (sys_step_lemma _ _ _ _ A1 E) as [_ [_ [_ [_ [_ R1]]]]].
-    destruct (IH _ _ A2 H) as [G1 [G2 G3]]. repeat split; congruence.
-Qed.
-
-Lemma drain_input_sys : forall n, forallb sys_step (drain_input n) = true.
-Proof. induction n; simpl; auto. Qed.
-
-Lemma drain_labels_sys : forall s, forallb sys_step (drain_labels s) = true.
-Proof.
-  intro s. unfold drain_labels. rewrite !forallb_app. rewrite drain_input_sys.
-  destruct (hand s); simpl; rewrite andb_true_r;
-    induction (length (outq s)); simpl; auto.
-Qed.
-
 (* From any state the reactor reaches with run() alive: (1) there is a schedule of run() and
    consumer steps after which the consumers have received every seed of every insert / feedback
    that returned nil so far, in the order of those returns; (2) whatever run() and the consumers
@@ -1047,3 +401,4 @@ Proof.
     + intro Z. rewrite (sys_done_lemma _ Z). congruence.
     + intro Z. apply sys_enabled_lemma; congruence.
 Qed.
+
